@@ -125,19 +125,28 @@ func (muxer *Muxer) process() {
 			packSequenceHeader = true
 		}
 		
-		frame := f.(*codec.Frame)
+		muxer.packetize(f.(*codec.Frame))
+	}
+}
 
-		switch frame.MediaType {
-		case codec.MediaTypeVideo:
-			if err := muxer.vp.Packetize(frame); err != nil {
-				muxer.logger.Errorf("flvmuxer: muxVideoTag error - %s", err.Error())
-			}
-		case codec.MediaTypeAudio:
-			if err := muxer.ap.Packetize(frame); err != nil {
-				muxer.logger.Errorf("flvmuxer: muxAudioTag error - %s", err.Error())
-			}
-		default:
+// packetize 处理一帧；畸形帧引起的 panic 只丢弃这一帧，转换协程继续处理后续的帧
+func (muxer *Muxer) packetize(frame *codec.Frame) {
+	defer func() {
+		if r := recover(); r != nil {
+			muxer.logger.Errorf("flvmuxer: malformed frame dropped; r = %v", r)
 		}
+	}()
+
+	switch frame.MediaType {
+	case codec.MediaTypeVideo:
+		if err := muxer.vp.Packetize(frame); err != nil {
+			muxer.logger.Errorf("flvmuxer: muxVideoTag error - %s", err.Error())
+		}
+	case codec.MediaTypeAudio:
+		if err := muxer.ap.Packetize(frame); err != nil {
+			muxer.logger.Errorf("flvmuxer: muxAudioTag error - %s", err.Error())
+		}
+	default:
 	}
 }
 
